@@ -39,7 +39,11 @@ func (c *countingReader) Read(p []byte) (int, error) {
 }
 
 func decode64(entry int, data []byte) (b *roaring64.Bitmap, n int64, consumed int, err error) {
-	b = roaring64.New()
+	return decode64Into(roaring64.New(), entry, data)
+}
+
+func decode64Into(recv *roaring64.Bitmap, entry int, data []byte) (b *roaring64.Bitmap, n int64, consumed int, err error) {
+	b = recv
 	switch entry {
 	case 0:
 		cr := &countingReader{r: bytes.NewReader(data)}
@@ -171,7 +175,17 @@ func propC18(t *rapid.T) {
 		if entry >= 2 {
 			in = by // no framing for these two
 		}
-		rb, n, consumed, err := decode64(entry, in)
+		recv := roaring64.New()
+		recvName := "fresh"
+		switch rapid.IntRange(0, 2).Draw(t, "receiver") {
+		case 1:
+			recv, recvName = build64(t, "oldrecv", set64(t, "oldrecv")), "previously holding another bitmap"
+		case 2:
+			recv, recvName = b.Clone(), "previously holding the same bitmap"
+			recv.Add(value64(t, "oldextra", m))
+		}
+		rb, n, consumed, err := decode64Into(recv, entry, in)
+		_ = recvName
 		if err != nil {
 			fail("%s of the library's own bytes (+%d garbage): %v", e64[entry], garbage, err)
 		}
@@ -188,7 +202,7 @@ func propC18(t *rapid.T) {
 			fail("%s: round trip contents: %s", e64[entry], d)
 		}
 		if err := rb.Validate(); err != nil {
-			fail("%s: round trip fails Validate: %v", e64[entry], err)
+			fail("%s into a receiver %s: round trip fails Validate: %v", e64[entry], recvName, err)
 		}
 		// keeps working
 		v := value64(t, "post", m)
